@@ -7,6 +7,7 @@ import (
 	"golang.org/x/tools/go/ssa"
 
 	"verif/checker/internal/ir"
+	"verif/checker/internal/report"
 )
 
 // Rule family P: recycled storage. An object handed back to a sync.Pool is
@@ -299,4 +300,156 @@ func (c *Ctx) ruleRecycle(rule string, in func(*ssa.Function) bool) {
 	if n == 0 {
 		c.R.Okf(rule, "-", "scan", "-", "no function in scope hands an object back to a sync.Pool")
 	}
+}
+
+// rulePoolReset (P.reset): an object with state (a hash, a buffer) that goes
+// back into a sync.Pool is reset on every path that used it — or is reset
+// right after it was taken out, before any use. Otherwise the state left by a
+// call that ended early (an error return with a deferred Put) is what the next
+// caller continues from.
+func (c *Ctx) rulePoolReset(rule string, in func(*ssa.Function) bool) int {
+	n := 0
+	counts := map[string]int{}
+	for _, fn := range c.P.LibFunctions() {
+		if in != nil && !in(fn) {
+			continue
+		}
+		fn := fn
+		instrsOf(fn, func(i ssa.Instruction) {
+			call, ok := i.(ssa.CallInstruction)
+			if !ok || ir.CallID(call) != "sync.Pool.Put" {
+				return
+			}
+			args := ir.CallArgs(call)
+			obj := args[len(args)-1]
+			// the values that stand for the pooled object in this function
+			alias := map[ssa.Value]bool{}
+			var grow func(v ssa.Value, d int)
+			grow = func(v ssa.Value, d int) {
+				if v == nil || alias[v] || d > 8 {
+					return
+				}
+				alias[v] = true
+				switch x := v.(type) {
+				case *ssa.Phi:
+					for _, e := range x.Edges {
+						grow(e, d+1)
+					}
+				case *ssa.TypeAssert:
+					grow(x.X, d+1)
+				case *ssa.Extract:
+					grow(x.Tuple, d+1)
+				case *ssa.MakeInterface:
+					grow(x.X, d+1)
+				case *ssa.ChangeInterface:
+					grow(x.X, d+1)
+				}
+				if v.Referrers() != nil {
+					for _, r := range *v.Referrers() {
+						switch y := r.(type) {
+						case *ssa.Phi, *ssa.TypeAssert, *ssa.MakeInterface, *ssa.ChangeInterface:
+							grow(y.(ssa.Value), d+1)
+						case *ssa.Extract:
+							grow(y, d+1)
+						}
+					}
+				}
+			}
+			grow(obj, 0)
+			var uses, resets []ssa.Instruction
+			instrsOf(fn, func(j ssa.Instruction) {
+				cj, isC := j.(ssa.CallInstruction)
+				if !isC || j == i {
+					return
+				}
+				touches := false
+				if cj.Common().IsInvoke() && alias[cj.Common().Value] {
+					touches = true
+				}
+				for _, a := range cj.Common().Args {
+					if alias[a] {
+						touches = true
+					}
+				}
+				if !touches {
+					return
+				}
+				id := ir.CallID(cj)
+				switch {
+				case id == "sync.Pool.Put" || id == "sync.Pool.Get":
+				case cj.Common().IsInvoke() && cj.Common().Method.Name() == "Reset", strings.HasSuffix(id, ".Reset"):
+					resets = append(resets, j)
+				case cj.Common().IsInvoke() && (cj.Common().Method.Name() == "Sum" || cj.Common().Method.Name() == "Size" || cj.Common().Method.Name() == "BlockSize"):
+				default:
+					uses = append(uses, j)
+				}
+			})
+			if len(uses) == 0 {
+				return
+			}
+			n++
+			key := ordinalKey(counts, name(fn)+":pool-put")
+			construct := strings.TrimPrefix(key, name(fn)+":")
+			// (A) reset before any use
+			for _, r := range resets {
+				all := true
+				for _, u := range uses {
+					if !precedesInCFG(fn, r, u) {
+						all = false
+					}
+				}
+				if all {
+					c.R.Okf(rule, name(fn), construct, c.IPos(i), "the pooled object is reset before it is used")
+					return
+				}
+			}
+			// (B) no way from a use to where the object goes back without a reset
+			cut := map[ir.Edge]bool{}
+			resetBlock := map[int]bool{}
+			for _, r := range resets {
+				resetBlock[r.Block().Index] = true
+				for _, s := range r.Block().Succs {
+					cut[ir.Edge{From: r.Block().Index, To: s.Index}] = true
+				}
+			}
+			_, deferred := i.(*ssa.Defer)
+			bad := ""
+			for _, u := range uses {
+				seen, _ := ir.Reach(fn, u.Block(), cut)
+				if resetBlock[u.Block().Index] {
+					// a reset after the use in the same block covers the paths through it
+					covered := false
+					for _, r := range resets {
+						if r.Block() == u.Block() && precedes(u, r) {
+							covered = true
+						}
+					}
+					if covered {
+						continue
+					}
+				}
+				if deferred {
+					for _, r := range ir.Returns(fn) {
+						if seen[r.Block().Index] && !resetBlock[r.Block().Index] {
+							bad = c.IPos(r)
+						}
+					}
+				} else if seen[i.Block().Index] && !resetBlock[i.Block().Index] {
+					bad = c.IPos(i)
+				}
+			}
+			what := "an object that goes back into a pool was reset on every path that used it"
+			if bad == "" {
+				c.R.Okf(rule, name(fn), construct, c.IPos(i), what)
+				return
+			}
+			// how the rest of the function is written does not change this
+			c.R.Add(report.Obligation{Rule: rule, Key: rule + "@" + name(fn) + ":" + construct, Func: name(fn), Pos: c.IPos(i), What: what, Status: report.Violation, Hard: true,
+				Detail: "the object put into the pool can reach " + bad + " after it was used without a Reset on the way (an early return, say): the next call that takes it out continues from the state that was left"})
+		})
+	}
+	if n == 0 {
+		c.R.Okf(rule, "-", "scan", "-", "no stateful object is put into a sync.Pool after use")
+	}
+	return n
 }
